@@ -227,8 +227,19 @@ def checkAct (kp off : F) (inv : Bool) (ins : List (Option F)) (out : List Strin
         match i with
         | none => (true, acc.2 && (o == (if acc.1 then "n" else "s")))
         | some _ => (false, acc.2 && o != "n" && o != "s")) (false, true)).2
+    -- the sign rule on the implementation's own output (contract gains only: kp > 0, 0 <= offset <= 32767): the value opposes
+    -- the error for a non-inverted profile and follows it for an inverted one - in particular at saturation
+    let inContract := decide (kpq > 0) && decide (offq ≥ 0) && decide (offq ≤ 32767)
+    let signOk := !inContract || ((ins.zip out).all fun (i, o) =>
+      match i, (if o.startsWith "v:" then (o.drop 2).toString.toInt? else none) with
+      | some (.fin e neg), some v =>
+        -- the error's sign bit decides (an error of +-0 included); a value of 0 is neither
+        if v == 0 then true
+        else if inv then (if neg then decide (v < 0) else decide (v > 0) || e == 0)
+        else (if neg then decide (v > 0) else decide (v < 0) || e == 0)
+      | _, _ => true)
     { agree := r.2.2, model := joinSp r.2.1,
-      specFail := failing [("stop_exactly_once", stopOnce),
+      specFail := failing [("stop_exactly_once", stopOnce), ("value_opposes_or_follows_the_error_as_configured", signOk),
                            ("value_within_i16", out.all fun o =>
                               if o.startsWith "v:" then (match (o.drop 2).toString.toInt? with
                                 | some v => decide (-32768 ≤ v) && decide (v ≤ 32767) | none => false) else true)] }
